@@ -27,7 +27,7 @@ func ServiceRequest(pdu []byte, ue *tglib.RanUeContext, conn *sctp.SCTPConn, gnb
 
 	ueSupi := strings.Split(ue.Supi, "-")[1]
 	supiInt, _ := strconv.Atoi(ueSupi)
-	pduId := int64(supiInt % 1e4)
+	pduId := int64(supiInt%15) + 1 // PDU session identity: 1..15 (TS 24.007 11.2.3.1b)
 
 	/*
 		  pduSessionIDList := []int64{pduId}
